@@ -62,6 +62,8 @@ pub fn directions(geometry: &str) -> Vec<[f64; 3]> {
         "bent" => { let a = 104.5f64.to_radians() / 2.0; vec![[a.sin(), a.cos(), 0.], [-a.sin(), a.cos(), 0.]] }
         "trigonal" => vec![[1., 0., 0.], [-0.5, s3 / 2., 0.], [-0.5, -s3 / 2., 0.]],
         "pyramidal" => { let t = 0.35f64; vec![norm([1., 0., -t]), norm([-0.5, s3 / 2., -t]), norm([-0.5, -s3 / 2., -t])] }
+        // three mutually perpendicular bonds along the axes (what a builder emits for a "90 degree" pyramid, and PH3 is close to it)
+        "orthopyramid" => vec![[1., 0., 0.], [0., 1., 0.], [0., 0., 1.]],
         "tetrahedral" => vec![norm([1., 1., 1.]), norm([1., -1., -1.]), norm([-1., 1., -1.]), norm([-1., -1., 1.])],
         "square" => vec![[1., 0., 0.], [0., 1., 0.], [-1., 0., 0.], [0., -1., 0.]],
         "tbp" => vec![[0., 0., 1.], [0., 0., -1.], [1., 0., 0.], [-0.5, s3 / 2., 0.], [-0.5, -s3 / 2., 0.]],
@@ -69,7 +71,7 @@ pub fn directions(geometry: &str) -> Vec<[f64; 3]> {
         _ => panic!("geometry"),
     }
 }
-pub const GEOMETRIES: [&str; 9] = ["single", "linear", "bent", "trigonal", "pyramidal", "tetrahedral", "square", "tbp", "octahedral"];
+pub const GEOMETRIES: [&str; 10] = ["single", "linear", "bent", "trigonal", "pyramidal", "tetrahedral", "square", "tbp", "octahedral", "orthopyramid"];
 
 /// A centre with ligands at bond length scale × (r_c + r_l)
 pub fn centre(zc: usize, zl: usize, geometry: &str, scale: f64) -> Mol {
